@@ -57,6 +57,9 @@ def cases(tier, seed):
         for w in (1, 4, 8, 64, 70):
             out.append({'k': 'illegal', 'sim': s, 'w': w})
             if s != 'compiled':
+                out.append({'k': 'illegal', 'sim': s, 'w': w, 'dv': (1 << w) + 1})
+                out.append({'k': 'illegal', 'sim': s, 'w': w, 'dv': 1})
+            if s != 'compiled':
                 for ill in ('big', 'neg'):
                     out.append({'k': 'rejected_step', 'sim': s, 'w': w, 'illegal': ill})
     for s in SIMS:
@@ -78,11 +81,13 @@ def site_of(c):
     return 'C15:%s:%s' % (c['k'], c['sim'])
 
 
-def make_sim(kind, block, regs=None):
+def make_sim(kind, block, regs=None, default_value=0):
     if kind == 'sim':
-        return simdrv.symbolize_mems(pyrtl.Simulation(block=block, tracer=pyrtl.SimulationTrace(block=block, wires_to_track='all')), block, kind)
+        return simdrv.symbolize_mems(pyrtl.Simulation(block=block, default_value=default_value,
+                                                      tracer=pyrtl.SimulationTrace(block=block, wires_to_track='all')), block, kind)
     if kind == 'fast':
-        return simdrv.symbolize_mems(pyrtl.FastSimulation(block=block, tracer=pyrtl.SimulationTrace(block=block, wires_to_track='all')), block, kind)
+        return simdrv.symbolize_mems(pyrtl.FastSimulation(block=block, default_value=default_value,
+                                                          tracer=pyrtl.SimulationTrace(block=block, wires_to_track='all')), block, kind)
     raise ValueError(kind)
 
 
@@ -642,7 +647,8 @@ def do_illegal(case, ob, site):
         paths = explore(body)
     else:
         def body():
-            sim = make_sim(kind, block)
+            # (a non-zero default_value is what an Input "holds" before the first step: it need not fit the Input)
+            sim = make_sim(kind, block, default_value=case.get('dv', 0))
             sim.step({'a': val})
             return sim.tracer.trace['a'][-1], sim.tracer.trace['o'][-1]
         with sym_env([block]):
@@ -732,7 +738,7 @@ def replay(cex):
         o = pyrtl.Output(c['w'], 'o')
         o <<= a
         cls = {'sim': pyrtl.Simulation, 'fast': pyrtl.FastSimulation, 'compiled': pyrtl.CompiledSimulation}[c['sim']]
-        sim = cls()
+        sim = cls(default_value=c['dv']) if c.get('dv') else cls()
         legal = 0 <= val < (1 << c['w'])
         try:
             sim.step({'a': val})
